@@ -240,8 +240,10 @@ def finish(prop, mon, plan, agg, a):
         "inconclusive_reasons": reasons,
         "technique": getattr(mon, "TECHNIQUE", "runtime monitoring"),
     }
-    os.makedirs(os.path.join(VERIF, "evidence"), exist_ok=True)
-    with open(os.path.join(VERIF, "evidence", f"{prop}.json"), "w", encoding="utf-8") as fh:
+    # runs against a deliberately broken tree (tools/mutant_matrix.py etc.) must not overwrite the evidence of the real tree
+    evdir = os.environ.get("VERIF_EVIDENCE_DIR") or os.path.join(VERIF, "evidence")
+    os.makedirs(evdir, exist_ok=True)
+    with open(os.path.join(evdir, f"{prop}.json"), "w", encoding="utf-8") as fh:
         json.dump(ev, fh, ensure_ascii=False, indent=1)
     ctr = ", ".join(f"{k}={v}" for k, v in sorted(agg["counters"].items()))
     print(f"[{prop}] tier={a.tier} seed={a.seed} verdict={verdict} evaluations={agg['evaluations']} "
